@@ -91,6 +91,9 @@ type PairCfg struct {
 	// BindAddr: the client binds to its specific local address (not only to the
 	// port) before it connects
 	BindAddr bool `json:"bind_addr,omitempty"`
+	// DualListener (IPv4 pairs): the listener is an IPv6 socket with v6only off, bound
+	// to the wildcard address; the IPv4 client reaches it through the dual-stack path
+	DualListener bool `json:"dual_listener,omitempty"`
 	Prog        Program `json:"prog"`
 }
 
@@ -149,9 +152,18 @@ func NewPair(cfg PairCfg) *Pair {
 // success, otherwise a description (not necessarily a violation).
 func (p *Pair) Establish(d time.Duration) string {
 	var err *tcpip.Error
-	p.L, err = NewSock(p.SB, tcp.ProtocolNumber, p.Net)
+	lnet := p.Net
+	if p.Cfg.DualListener && !p.Cfg.V6 {
+		lnet = ipv6.ProtocolNumber
+	}
+	p.L, err = NewSock(p.SB, tcp.ProtocolNumber, lnet)
 	if err != nil {
 		return "listener: " + err.String()
+	}
+	if lnet != p.Net {
+		if err = p.L.EP.SetSockOpt(tcpip.V6OnlyOption(0)); err != nil {
+			return "listener v6only off: " + err.String()
+		}
 	}
 	if err = p.L.EP.Bind(tcpip.FullAddress{Port: PairPort}, nil); err != nil {
 		return "bind: " + err.String()
@@ -302,17 +314,43 @@ func (p *Pair) Close() {
 
 // TraceTail renders the last n wire events.
 func (p *Pair) TraceTail(n int) string {
-	ev := p.W.Events()
-	if len(ev) > n {
-		ev = ev[len(ev)-n:]
+	all := p.W.Events()
+	var t0 time.Time
+	if len(all) > 0 {
+		t0 = all[0].T
+	}
+	// exchanges that repeat unchanged (keep-alive probes and their answers, window
+	// probes) are folded: a line identical to one of the previous four is counted
+	type line struct {
+		id, text string
+		rep      int
+	}
+	var ls []line
+	for _, e := range all {
+		k := e.Pkt
+		id := fmt.Sprintf("%d|%s|%s|%d|%d|%d|%d|%d", e.Dir, e.Key, e.Action, k.Flags, k.Seq, k.Ack, k.Wnd, len(k.Payload))
+		folded := false
+		for j := len(ls) - 1; j >= 0 && j >= len(ls)-4; j-- {
+			if ls[j].id == id {
+				ls[j].rep++
+				folded = true
+				break
+			}
+		}
+		if !folded {
+			ls = append(ls, line{id: id, text: fmt.Sprintf("  +%7.1fms %s %-12s %-6s %s", float64(e.T.Sub(t0).Microseconds())/1000, []string{"A>B", "B>A"}[e.Dir], e.Key, e.Action, e.Pkt)})
+		}
+	}
+	if len(ls) > n {
+		ls = ls[len(ls)-n:]
 	}
 	s := ""
-	var t0 time.Time
-	if len(ev) > 0 {
-		t0 = ev[0].T
-	}
-	for _, e := range ev {
-		s += fmt.Sprintf("  +%7.1fms %s %-12s %-6s %s\n", float64(e.T.Sub(t0).Microseconds())/1000, []string{"A>B", "B>A"}[e.Dir], e.Key, e.Action, e.Pkt)
+	for _, l := range ls {
+		s += l.text
+		if l.rep > 0 {
+			s += fmt.Sprintf("   [and %d more like it]", l.rep)
+		}
+		s += "\n"
 	}
 	return s
 }
